@@ -245,8 +245,12 @@ class Executor(object):
             else:
                 self.st.inc('jumpoff-illformed-followed-unchecked')
         if not R:
-            self.st.inc('stop:jumpoff-with-nobody-reinstated')
-            raise Stop('jump-off state with nobody to jump')
+            # state 'jumpoff' although nobody shown in first place may jump (they all retired).  The
+            # run goes on: everybody is out, so every further trial must be refused (C02 judges that);
+            # for C03 this is the same undecided situation as 'started' with everybody out.
+            self.st.inc('probe:jumpoff-with-nobody-reinstated')
+            if self.check == 'C03':
+                raise Violation('undecided-with-everybody-out:jumpoff-with-nobody-to-jump', {'op': op, 'places': pl})
         m.reinstate(R)
 
     # ---- C03 -----------------------------------------------------------------------------
@@ -531,6 +535,9 @@ class Director(object):
         self.jo_policy = r.choice(['raise', 'repeat', 'lower', 'mixed', 'mixed', 'below_best'])
         self.jo_tie = r.choice([0.2, 0.5, 0.8])
         self.jo_ret = r.choice([0.0, 0.0, 0.05, 0.2, 0.5])
+        # sloppy jump-offs: a participant is not called, or passes, before the bar moves.  The rules do
+        # not describe these (C03 does not judge them) but the calls are legal, so C02/C08 must cope.
+        self.jo_sloppy = r.choice([0.0, 0.0, 0.0, 0.15] if check == 'C03' else [0.0, 0.0, 0.15, 0.4])
         self.sched = r.choice(['random', 'random', 'rr', 'finish_first'])
         self.force_last = r.random() < 0.8 and self.H > 1
         self.skill = [r.uniform(0.35, 0.95) for _ in range(self.n)]
@@ -743,6 +750,8 @@ class Director(object):
         for b in part:
             if r.random() < self.jo_ret:
                 cells[b] = 'r'
+            elif r.random() < self.jo_sloppy:
+                cells[b] = r.choice(['', '-'])
         return cells
 
     def run_free(self, ex):
